@@ -326,6 +326,20 @@ func genC10(tier string, r *rng) {
 	emit("onhdr@"+hx([]byte("X-A")), "ws://example.com/", buildResp(ok101, append([]hdr{{"X-A", " 1"}}, base...), "\r\n", nil))
 	emit("onhdr@"+hx([]byte("X-B")), "ws://example.com/", buildResp(ok101, append([]hdr{{"X-A", " 1"}}, base...), "\r\n", nil))
 	emit("onhdr@"+hx([]byte("Upgrade")), "ws://example.com/", buildResp(ok101, base, "\r\n", nil))
+	// every byte after the response head stays readable - also through the debug wrapper, whatever the line ends
+	{
+		rb := baseRespHeaders()
+		for _, rs := range [][]byte{
+			buildResp(ok101, rb, "\r\n", []byte("\x81\x02hi")),
+			buildResp(ok101, rb, "\n", []byte("\x81\x10SEND\r\na:b\r\n\r\nbody")),
+			append(bytes.TrimSuffix(buildResp(ok101, rb, "\n", nil), []byte("\n")), []byte("\r\n\x81\x02hi")...),
+			append(bytes.TrimSuffix(buildResp(ok101, rb, "\r\n", nil), []byte("\r\n")), []byte("\n\x81\x02hi\r\n\r\nmore")...),
+		} {
+			for _, k := range []int{0, 1, 16} {
+				run(fmt.Sprintf("dbgdl - %s %s %d ok", hx([]byte("ws://example.com/x")), hx(rs), k))
+			}
+		}
+	}
 	// subprotocols inside and outside the request
 	protoCfgs := []string{"-", "proto@" + hx([]byte("chat")), "proto@" + hx([]byte("a")) + "|" + hx([]byte("b")) + "|" + hx([]byte("c"))}
 	protoVals := []string{" chat", " a", " b", " c", " d", "", " a, b", " A", " a ", "a"}
